@@ -90,7 +90,7 @@ props = [json.loads(l) for l in open('/verif/properties.jsonl')]
 hooks = subprocess.run(['git','-C','/repo','log','--format=%h','--','verif_hooks.go'],capture_output=True,text=True).stdout.split()
 man = {
  "version": 1,
- "setup_cmd": f"cd /verif/harness && {GOENV} go build ./... && for d in props/*/; do {GOENV} go test -c -tags verif -vet=off -o /dev/null ./$d || exit 1; done",
+ "setup_cmd": f"cd /verif/harness && {GOENV} go build -tags verif ./... && for d in props/*/; do {GOENV} go test -c -tags verif -vet=off -o /dev/null ./$d || exit 1; done",
  "hooks": {"guard": "verif", "enable": "go test -tags verif (the harness module replaces github.com/yuin/gopher-lua by /repo)",
            "baseline_off_cmd": "cd /repo && go test -json -vet=off -count=1 -timeout 25m ./...",
            "source_commits": hooks, "add_only": True},
